@@ -59,13 +59,14 @@ def sh(cmd, cwd=None, env=None, timeout=1200, check=False, stdin=None):
 
 
 class Lock:
-    def __init__(self, name):
+    def __init__(self, name, shared=False):
         os.makedirs(BUILD, exist_ok=True)
         self.path = os.path.join(BUILD, name + ".lock")
+        self.shared = shared
 
     def __enter__(self):
-        self.f = open(self.path, "w")
-        fcntl.flock(self.f, fcntl.LOCK_EX)
+        self.f = open(self.path, "a")
+        fcntl.flock(self.f, fcntl.LOCK_SH if self.shared else fcntl.LOCK_EX)
         return self
 
     def __exit__(self, *a):
@@ -145,41 +146,108 @@ def coq_tree_hash(files=None):
     return h.hexdigest()[:16]
 
 
-def coq_closure(rel_files):
-    """Transitive closure of coq/ files (relative paths) under `Require ... Acme.X.Y`."""
-    seen, todo = [], list(rel_files)
+COQ_WARN = "-notation-overridden,-deprecated-hint-without-locality,-deprecated-instance-without-locality,-ambiguous-paths,-deprecated-syntactic-definition"
+COQC_FILE_TIMEOUT = 600   # seconds per file; a closure is meant to compile in < 5 min altogether
+
+
+def coq_deps(rel_files):
+    """{file: [direct Acme dependencies]} for the transitive closure of coq/ files (relative
+    paths) under `Require ... Acme.X.Y`."""
+    deps, todo = {}, list(rel_files)
     while todo:
         f = todo.pop()
-        if f in seen or not os.path.exists(os.path.join(COQ, f)):
+        if f in deps or not os.path.exists(os.path.join(COQ, f)):
             continue
-        seen.append(f)
+        deps[f] = []
         txt = strip_coq_comments(open(os.path.join(COQ, f), encoding="utf-8").read())
         for m in re.finditer(r"(?:From\s+(Acme[\w.]*)\s+)?Require\s+(?:Import\s+|Export\s+)?([^.]*(?:\.[\w]+)*[^.]*)\.(?=\s)", txt):
             pre = m.group(1)
             for name in m.group(2).split():
                 full = (pre + "." + name) if pre else name
                 if full.startswith("Acme."):
-                    todo.append(full[len("Acme."):].replace(".", "/") + ".v")
-    return sorted(seen)
+                    d = full[len("Acme."):].replace(".", "/") + ".v"
+                    if d != f and d not in deps[f] and os.path.exists(os.path.join(COQ, d)):
+                        deps[f].append(d)
+                        todo.append(d)
+    return deps
+
+
+def coq_closure(rel_files):
+    return sorted(coq_deps(rel_files))
+
+
+def _vo(f):
+    return os.path.join(COQ, f[:-2] + ".vo")
+
+
+def _stale(f, deps):
+    vo = _vo(f)
+    if not os.path.exists(vo):
+        return True
+    t = os.path.getmtime(vo)
+    if os.path.getmtime(os.path.join(COQ, f)) > t:
+        return True
+    return any((not os.path.exists(_vo(d))) or os.path.getmtime(_vo(d)) > t for d in deps[f])
+
+
+def _compile_one(f, deps, log):
+    """Compile one file under its own lock (so that only checks depending on a slow or diverging
+    file wait for it). Full .vo compilation with coqc, never -vos."""
+    with Lock("coq-" + f.replace("/", "_")):
+        if not _stale(f, deps):
+            return True
+        rc, out = sh(["timeout", str(COQC_FILE_TIMEOUT), "coqc", "-R", ".", "Acme", "-w", COQ_WARN, f], cwd=COQ,
+                     timeout=COQC_FILE_TIMEOUT + 30)
+        log.append("COQC %s rc=%d\n%s" % (f, rc, out[-3000:] if rc else out[-300:]))
+        if rc != 0:
+            try:
+                os.remove(_vo(f))
+            except OSError:
+                pass
+        return rc == 0
 
 
 def coq_build(timeout=3000, targets=None):
-    """.vo build of coq/ (coq_makefile + make -j): everything, or only `targets` (relative .v
-    paths) with their dependencies. No-op when up to date. Never -vos. Returns (ok, log)."""
-    with Lock("coq"):
+    """.vo build of coq/. targets=None (setup): coq_makefile + `make -k -j` over everything under
+    the global lock. targets=[relative .v paths] (checks): only the closure of the targets, each
+    stale file compiled by coqc under a per-file lock, in dependency order, in parallel where the
+    dependencies allow. No-op when up to date. Never -vos. Returns (ok, log)."""
+    os.makedirs(os.path.join(COQ, "extracted"), exist_ok=True)
+    if targets:
+        import concurrent.futures as cf
+        deps = coq_deps(targets)
+        log, done, failed = [], set(), set()
+        with Lock("coq-global-shared", shared=True):
+            with cf.ThreadPoolExecutor(max_workers=max(2, NCPU // 2)) as ex:
+                pending = {}
+                while len(done) + len(failed) < len(deps):
+                    for f in deps:
+                        if f in done or f in failed or f in pending.values():
+                            continue
+                        if any(d in failed for d in deps[f]):
+                            failed.add(f)
+                            log.append("SKIP %s (a dependency failed)" % f)
+                            continue
+                        if all(d in done for d in deps[f]):
+                            pending[ex.submit(_compile_one, f, deps, log)] = f
+                    if not pending:
+                        if len(done) + len(failed) < len(deps):
+                            continue
+                        break
+                    fin, _ = cf.wait(list(pending), return_when=cf.FIRST_COMPLETED)
+                    for fu in fin:
+                        f = pending.pop(fu)
+                        (done if fu.result() else failed).add(f)
+        return not failed, "\n".join(log)
+    with Lock("coq-global-shared"):
         srcs = [os.path.relpath(f, COQ) for f in coq_sources()]
-        os.makedirs(os.path.join(COQ, "extracted"), exist_ok=True)
-        proj = "-R . Acme\n-arg -w -arg -notation-overridden,-deprecated-hint-without-locality,-deprecated-instance-without-locality,-ambiguous-paths,-deprecated-syntactic-definition\n" + "\n".join(srcs) + "\n"
+        proj = "-R . Acme\n-arg -w -arg " + COQ_WARN + "\n" + "\n".join(srcs) + "\n"
         pj = os.path.join(COQ, "_CoqProject")
         old = open(pj).read() if os.path.exists(pj) else None
         if old != proj or not os.path.exists(os.path.join(COQ, "Makefile")):
             open(pj, "w").write(proj)
             sh("coq_makefile -f _CoqProject -o Makefile", cwd=COQ, check=True)
-        if targets:
-            tg = " ".join(t[:-2] + ".vo" for t in targets)
-            rc, out = sh("make COQC='timeout 1500 coqc' -j%d %s" % (NCPU, tg), cwd=COQ, timeout=timeout)
-        else:
-            rc, out = sh("make COQC='timeout 1500 coqc' -k -j%d" % NCPU, cwd=COQ, timeout=timeout)
+        rc, out = sh("make COQC='timeout %d coqc' -k -j%d" % (COQC_FILE_TIMEOUT, NCPU), cwd=COQ, timeout=timeout)
         return rc == 0, out
 
 
@@ -195,9 +263,8 @@ def coq_property(pid, timeout=900):
         return res
     text = strip_coq_comments(open(src, encoding="utf-8").read())
     res["theorems"] = re.findall(r"^\s*(?:Theorem|Corollary)\s+(\w+)", text, re.M)
-    with Lock("coq"):
-        rc, out = sh(["coqc", "-R", ".", "Acme", "-w",
-                      "-notation-overridden,-deprecated-hint-without-locality,-deprecated-instance-without-locality,-ambiguous-paths,-deprecated-syntactic-definition",
+    with Lock("coq-Properties_%s.v" % pid):
+        rc, out = sh(["coqc", "-R", ".", "Acme", "-w", COQ_WARN,
                       os.path.join("Properties", pid + ".v")], cwd=COQ, timeout=timeout)
     res["log"] = out
     res["ok"] = rc == 0
@@ -297,7 +364,7 @@ def coqchk(pid, timeout=3000):
     stamp = os.path.join(BUILD, "coqchk-%s-%s.log" % (pid, h))
     if os.path.exists(stamp):
         return True, open(stamp).read()
-    with Lock("coq"):
+    with Lock("coq-global-shared", shared=True):
         rc, out = sh(["coqchk", "-silent", "-o", "-R", ".", "Acme", "Acme.Properties." + pid],
                      cwd=COQ, timeout=timeout)
     if rc == 0:
